@@ -41,6 +41,7 @@ def cases(draw):
     s["pfrac"] = [draw(st.floats(0.12, 0.4)), draw(st.floats(0.15, 0.45))]
     s["sample"] = draw(st.sampled_from([None, None, 2, 3]))
     s["static_rows"] = draw(st.sampled_from(["as-is", "as-is", "reversed", "shuffled"]))     # the table has its own volume column
+    s["big_energy"] = draw(st.sampled_from([False, False, True]))
     return s
 
 
@@ -138,7 +139,9 @@ def oracle(ctx, s):
     # ---- F ---------------------------------------------------------------------------------------------------------
     gotF = col["F"] / refphys.RY_TO_EV
     slopeF = (np.abs(dfit(Vrow)) * 5.5e-6 * Vrow + interpF) if mode == "pressure" else 0.0
-    bad = np.abs(gotF - wantF) > 5.5e-6 * np.maximum(1.0, np.abs(wantF * refphys.RY_TO_EV)) / refphys.RY_TO_EV + slopeF
+    # pandas prints 6 decimals in fixed notation (absolute 5e-7 eV); exponent notation (6 digits) only beyond 1e6
+    wF = np.abs(wantF * refphys.RY_TO_EV)
+    bad = np.abs(gotF - wantF) > (6e-7 + np.where(wF >= 1e6, 5.5e-7 * wF, 1e-12 * wF)) / refphys.RY_TO_EV + slopeF
     if np.any(bad):
         j = int(np.argmax(bad))
         raise PropertyViolation("C18/mode=%s/F" % mode, "row %d: F=%r eV, fit at the reported volume %r eV (V column %r)" % (
@@ -237,7 +240,8 @@ def sub_static(ctx):
             return
         nt = s["mode"] != "none" and s["with_table"] and info["noncubic"]
         ctx.case(s, nt, classes=["mode-" + s["mode"], "table" if s["with_table"] else "no-table", "n=%d" % s["n"],
-                                  "system-" + (s["system"] if s["apply_system"] else "none"), "static-rows-" + s.get("static_rows", "as-is")])
+                                  "system-" + (s["system"] if s["apply_system"] else "none"), "static-rows-" + s.get("static_rows", "as-is"),
+                                  "big-energy" if s.get("big_energy") else "ordinary-energy"])
 
     ctx.run_given(body, cases(), max_examples=ctx.n(400, 8000))
 
